@@ -496,6 +496,38 @@ def r9(ctx, prog):
                'formatter never reads %s: records of this sink come out without it' % ', '.join(missing), where=g.loc(g.body))
     if n < 2:
         raise AnalysisBroken('expected >= 2 sink formatters (async back end, sync stdout), found %d' % n)
+    # provenance of the identity fields: the thread id is asked from the kernel in this very call (a cached copy — static / thread_local —
+    # survives fork() and then names a thread of another process); the time comes from a clock reading taken in this call
+    def pure_tid(g, e, depth=0):
+        x = g.s(g.strip_casts(e))
+        if x is None or depth > 3:
+            return False
+        if x['k'] == 'CallExpr' and x.get('callee') == 'syscall' and x.get('args') and g.s(g.strip_casts(x['args'][0])).get('cv') == 186:
+            return True
+        if x['k'] == 'CallExpr' and x.get('callee') in ('gettid',):
+            return True
+        if x['k'] in q.CALL_KINDS and x.get('usr'):
+            hs = [h for h in prog.by_usr.get(x['usr'], ()) if not h.parent_usr]
+            if len(hs) == 1:
+                h = hs[0]
+                statics = [d for st_ in h.stmts if st_ and st_['k'] == 'DeclStmt' for d in st_['decls'] if d.get('static') or 'thread' in (d.get('t') or '')]
+                glob = [st_ for st_ in h.stmts if st_ and st_['k'] == 'DeclRefExpr' and st_.get('gl') and st_.get('dk') == 'Var']
+                rets = q.returns(h)
+                return not statics and not glob and bool(rets) and all(r.get('val') is not None and pure_tid(h, r['val'], depth + 1) for r in rets)
+        return False
+    il = [st for st in f.stmts if st and st['k'] == 'InitListExpr' and 'LogContent' in (st.get('t') or '')]
+    if not il:
+        raise AnalysisBroken('LogPrintfFunc: initialiser of the LogContent record not found')
+    fields = [fd['n'] for fd in cls.get('fields', ())]
+    ti = fields.index('thread_id') if 'thread_id' in fields else 0
+    okt = len(il[0]['ch']) > ti and pure_tid(f, il[0]['ch'][ti])
+    ctx.ob('C09.R9', 'LogPrintfFunc|thread-id-fresh', okt, 'thread_id is syscall(SYS_gettid) evaluated in this call' if okt else
+           'thread_id does not come from a gettid system call made in this call (a value cached in static / thread-local storage is inherited by a forked child and then '
+           'names a thread of the parent process)', where=f.loc(il[0]['ch'][ti] if len(il[0]['ch']) > ti else il[0]['i']))
+    tcalls = [c for c in f.calls() if c.get('callee') in ('gettimeofday', 'clock_gettime')]
+    tv_ok = bool(tcalls) and all(f.cfg.dominates(q.pt(f, tcalls[0]), q.pt(f, il[0])) for _ in (0,)) and \
+        any(f.path(a) and f.path(a) in ' '.join(q.subtree_paths(f, il[0]['i'])) for a in tcalls[0].get('args', ())[:1])
+    ctx.ob('C09.R9', 'LogPrintfFunc|time-fresh', tv_ok, 'the timestamp is read with %s in this call, before the record is built' % (tcalls[0]['callee'] if tcalls else '?'), where=f.loc(il[0]['i']))
     # the pipe carries the whole record: the front end appends sizeof(LogContent) bytes of the record itself
     fe = prog.fn1(ASINK + '::onLogFrontEnd')
     aps = [c for c in fe.calls() if c.get('fn') == 'append']
